@@ -19,7 +19,7 @@
     No finding class is left; the former witnesses are regression Examples. *)
 From Coq Require Import String Ascii List Bool Arith ZArith.
 From Raven Require Import Base.GoStr Base.Like Model.Pattern Model.CmdTokenizer Spec.CmdArgs Model.Names Spec.Names Spec.NamesEval
-  Proof.NamesRange Proof.NamesUpdates Proof.NamesParents Proof.NamesDb Proof.NamesArgs Proof.NamesQuote.
+  Proof.NamesRange Proof.NamesUpdates Proof.NamesParents Proof.NamesDb Proof.NamesArgs Proof.NamesQuote Proof.NamesEnv.
 Import ListNotations.
 
 (** the SQL range test of db.childNameRange is the exact, case-sensitive prefix test *)
@@ -126,6 +126,54 @@ Print Assumptions c11_command_line_exact_rename.
 Theorem c11_shown_name_reads_back : forall n : str, decode_astring (quote_string n) = Some n.
 Proof. exact quote_string_reads_back. Qed.
 Print Assumptions c11_shown_name_reads_back.
+
+(** ---- across restarts and the two services ----
+    A history is any sequence of command lines (arbitrary raw arguments), restarts of the IMAP
+    side followed by a login, and deliveries through the delivery side's own manager.  After
+    EVERY such history INBOX is in the table, hence the table is not empty, hence opening the
+    store (db.createDefaultMailboxes: defaults only while the table is empty) changes nothing:
+    the name set is changed by the naming commands alone, plus a delivery's get-or-create of its
+    own target folder. *)
+Theorem c11_inbox_always_there : forall h : list estep, In INBOX (names (boxes (run_env init_store h))).
+Proof. intros h. apply env_inbox, init_has_inbox. Qed.
+Print Assumptions c11_inbox_always_there.
+
+Theorem c11_open_store_changes_nothing : forall h : list estep,
+  open_store (run_env init_store h) = run_env init_store h.
+Proof. exact open_identity_everywhere. Qed.
+Print Assumptions c11_open_store_changes_nothing.
+
+Theorem c11_restart_changes_nothing : forall h : list estep,
+  run_step (run_env init_store h) ERestart = (run_env init_store h, ROk, []).
+Proof. exact restart_changes_nothing. Qed.
+Print Assumptions c11_restart_changes_nothing.
+
+Theorem c11_delivery_is_spec : forall (h : list estep) (spam : bool),
+  deliver (run_env init_store h) spam = spec_deliver (run_env init_store h) spam.
+Proof. exact deliver_is_spec. Qed.
+Print Assumptions c11_delivery_is_spec.
+
+(** the only name a delivery can add is its target folder, and only if it is missing *)
+Theorem c11_delivery_adds_only_its_target : forall (h : list estep) (spam : bool),
+  names (boxes (fst (deliver (run_env init_store h) spam))) =
+  names (boxes (run_env init_store h)) ++
+  (if exists_box (boxes (run_env init_store h)) (if spam then S_ "Spam" else INBOX) then []
+   else [if spam then S_ "Spam" else INBOX]).
+Proof. exact deliver_names. Qed.
+Print Assumptions c11_delivery_adds_only_its_target.
+
+(** regression (seeded change C11-4): a store open that "completes missing defaults" -- counts
+    the five default NAMES and re-inserts them -- resurrects a deleted Spam and a renamed Drafts;
+    the tree's rule (defaults only into an empty table) does not *)
+Example c11_refill_variant_resurrects_names :
+  let refill (st : store) :=
+    MkStore (fold_left (fun bs n => if exists_box bs n then bs else bs ++ [new_box n])
+                       [INBOX; S_ "Sent"; S_ "Drafts"; S_ "Trash"; S_ "Spam"] (boxes st)) (subs st) (next_msg st) in
+  let st := run_env init_store [ECmd (CDelete (S_ "Spam")); ECmd (CRename (S_ "Drafts") (S_ "Drafts-2023"))] in
+  names (boxes (refill st)) = map S_ ["INBOX"; "Sent"; "Drafts-2023"; "Trash"; "Drafts"; "Spam"]%string
+  /\ names (boxes (open_store st)) = map S_ ["INBOX"; "Sent"; "Drafts-2023"; "Trash"]%string
+  /\ names (boxes (run_env st [EDeliver false; ERestart; EDeliver true])) = map S_ ["INBOX"; "Sent"; "Drafts-2023"; "Trash"; "Spam"]%string.
+Proof. vm_compute. repeat split; reflexivity. Qed.
 
 (** ---- no finding class is left: every class C11 ever listed has been repaired in /repo ---- *)
 (** the witnesses of the classes repaired in fix wave 3 (rename_into_child, rename_leading_slash,
